@@ -54,6 +54,11 @@ def items(tier, seed):
             out.append({"k": "chidx", "d": d, "i": i})
             out.append({"k": "chidx", "d": d, "i": i, "cont": "numpy"})
             out.append({"k": "chidx", "d": d, "i": i, "cont": "tuple"})
+    # units related by an offset: re-expressing the untouched elements is not a multiplication
+    for qt, u, v in (("temperature", "degC", "K"), ("temperature", "degF", "degC"), ("temperature", "K", "degF"), ("pressure", "psig", "Pa"), ("pressure", "bar", "bar(g)")):
+        for d in (2, 3):
+            for i in range(d):
+                out.append({"k": "chidx_affine", "d": d, "i": i, "qt": qt, "u": u, "v": v, "cont": ("list", "numpy", "tuple")[(d + i) % 3]})
     out[0]["canary"] = True
     random.Random(seed).shuffle(out)
     return out
@@ -183,6 +188,13 @@ def run(cfg, V):
         src_vals = SymArray(src_vals) if core.is_sym(src_vals[0]) else numpy.array(src_vals, dtype=float)
     elif cfg.get("cont") == "tuple":
         src_vals = tuple(src_vals)
+    if k == "chidx_affine":
+        src = FixedArray(d, src_vals, cfg["u"])
+        amount = Scalar(V["y"], cfg["v"])
+        r1 = src.ChangingIndex(cfg["i"], amount)
+        r2 = src.ChangingIndex(cfg["i"], (V["y"], cfg["v"]))
+        r3 = src.ChangingIndex(cfg["i"], amount, use_value_unit=False)
+        return {"affine": [(list(r.GetValues()), r.GetUnit(), r.dimension) for r in (r1, r2, r3)], "src_vals": list(src.GetValues()), "src_unit": src.GetUnit()}
     snap = list(src_vals)
     src = FixedArray(d, src_vals, "m")
 
@@ -303,6 +315,21 @@ def props(cfg, T, obs):
         return [("len(values) == dimension >= 2", _inv(obs)), ("accepted only when valid", should), ("dimension is the requested one", obs["dim"] == d)]
     if isinstance(obs, Raised):
         return [("operation raises only ValueError/IndexError", False)]
+    if k == "chidx_affine":
+        from .common import get_db, oracle_convert
+
+        db = get_db("default")
+        xs = [T["x%d" % j] for j in range(d)]
+        y, i, qt, u, v = T["y"], cfg["i"], cfg["qt"], cfg["u"], cfg["v"]
+        want_v = [oracle_convert(db, qt, u, v, x) for x in xs]
+        want_v[i] = y
+        want_u = list(xs)
+        want_u[i] = oracle_convert(db, qt, v, u, y)
+        (a1, u1, d1), (a2, u2, d2), (a3, u3, d3) = obs["affine"]
+        return [("ChangingIndex across units related by an offset: every other element is the SAME physical amount re-expressed, the index is the supplied amount",
+                 z3.And(z3.BoolVal((u1, u2, u3) == (v, v, u) and d1 == d2 == d3 == d and len(a1) == len(a2) == len(a3) == d),
+                        *[approx(a, b) for a, b in zip(a1, want_v)], *[approx(a, b) for a, b in zip(a2, want_v)], *[approx(a, b) for a, b in zip(a3, want_u)])),
+                ("the source array is untouched", obs["src_unit"] == u and all(z3.is_true(z3.simplify(term(a) == b)) for a, b in zip(obs["src_vals"], xs)))]
     if obs.get("rejected"):
         ok_to_reject = (k == "arith" and cfg["op"] == "add_array" and n != d) or (k == "copyvals" and n != d) or (k == "chidx" and not (-d <= cfg["i"] < d))
         return [("rejected only when the request would break the invariant", ok_to_reject), ("source unchanged after rejection", bool(obs["src_ok"])),
